@@ -244,6 +244,8 @@ def body_cloud(case):
     P = np.asarray(case["P"], dtype=float)
     B = np.asarray(case["B"], dtype=float)
     P0, B0 = P.copy(), B.copy()
+    if float(np.max(np.abs(P))) < 1e-30 or float(np.max(P.max(0) - P.min(0))) < 1e-30:
+        return ["cloud-below-1e-30-skipped"]       # squared distances underflow: outside the explored magnitudes (see DESIGN 8.6)
     with calling("dreye.in_hull"):
         got = np.asarray(dreye.in_hull(P, B))
     check(got.shape == (B.shape[0],), "cloud:shape", f"{got.shape}")
